@@ -36,7 +36,7 @@ import (
 	"github.com/hprose/hprose-golang/v3/io"
 )
 
-func init() { runForced = runForcedHooked }
+func init() { runForced, runForcedDec = runForcedHooked, runForcedDecHooked }
 
 func runForcedHooked(c *c14Case, obs *c14Obs) {
 	g := typeGroups[c.Group]
@@ -183,4 +183,77 @@ func runForcedSame(c *c14Case, obs *c14Obs, v0, v1 interface{}, holdAt string) {
 	close(release1)
 	<-d0
 	<-d1
+}
+
+// Decoder side (hooks/c14-io-decoder.patch):
+//
+//	func newNamedStructDecoder(t reflect.Type, tag ...string) *structDecoder {
+//	    decoder := &structDecoder{t: t2}
+//	    decoder.Lock() ; defer decoder.Unlock()
+//	    registerNamedStructDecoder(t, decoder)
+//	    verifYield("structdec.published", t)        <- goroutine A is held here for the wide type WT
+//	    decoder.fields = getFieldMap(t, tag...)
+//
+// goroutine A = Unmarshal into WT (first use), held when WT's decoder is published; goroutine B = Unmarshal
+// into *WT (bdest PT), WO{In WT; P *WT} (bdest O) or []WT (bdest S).  With the lock spanning publication and assignment B
+// waits in decodeField (blocked is reported, A is released, both finish); with a narrower lock B returns
+// at once with every field of WT skipped.
+func runForcedDecHooked(c *c14Case, obs *c14Obs) {
+	j := c.Families[0]
+	fam := wideFamilies[j]
+	holdAt := fmt.Sprintf("WT%03d", j)
+	dt, _ := hex.DecodeString(c.Datas[0][0])
+	do, _ := hex.DecodeString(c.Datas[0][1])
+	held := make(chan struct{})
+	release := make(chan struct{})
+	var once sync.Once
+	io.VerifYieldHook = func(point string, o interface{}) {
+		if point != "structdec.published" {
+			return
+		}
+		if t, ok := o.(reflect.Type); ok && t.Name() == holdAt {
+			hit := false
+			once.Do(func() { hit = true })
+			if hit {
+				close(held)
+				<-release
+			}
+		}
+	}
+	defer func() { io.VerifYieldHook = nil }()
+	round := make([]string, 2)
+	run := func(i int, tag string, data []byte, dest interface{}, done chan struct{}) {
+		defer close(done)
+		o, e := decodeInto(c.Simple, data, dest)
+		round[i] = tag + ":" + o + "|" + e
+	}
+	d0, d1 := make(chan struct{}), make(chan struct{})
+	go run(0, "T", dt, fam.newT(), d0)
+	select {
+	case <-held:
+	case <-d0:
+		obs.Note = "goroutine A never reached the yield point for " + holdAt
+		return
+	case <-time.After(5 * time.Second):
+		obs.Note = "timeout waiting for the yield point"
+		return
+	}
+	switch c.BDest {
+	case "O":
+		go run(1, "O", do, fam.newO(), d1)
+	case "S":
+		ds, _ := hex.DecodeString(c.Datas[0][2])
+		go run(1, "S", ds, fam.newS(), d1)
+	default:
+		go run(1, "PT", dt, fam.newPT(), d1)
+	}
+	select {
+	case <-d1:
+	case <-time.After(400 * time.Millisecond):
+		obs.Blocked = true
+	}
+	close(release)
+	<-d0
+	<-d1
+	obs.Rounds = [][]string{round}
 }
